@@ -350,6 +350,12 @@ func (c *ClientConn) maybePrepareAndExecute(request Request, raw *frame.RawFrame
 		if !ok {
 			return false
 		}
+		if _, isReprepare := request.(*prepareRequest); isReprepare {
+			// The server answered the `PREPARE` of a re-prepare with an "unprepared" error. Preparing again on this
+			// host would never end and the original request would never get a response, give up on this host.
+			request.Execute(true)
+			return true
+		}
 		id := hex.EncodeToString(msg.Id)
 		if prepare, ok := c.preparedCache.Load(id); ok {
 			// The statement may have been prepared through a session with another protocol version: encode it for
